@@ -236,14 +236,20 @@ def attach_all(run, rt):
     import cnvlib.commands as CM
     import cnvlib.parallel as P
     import cnvlib.samutil as SU
-    traced = [("coverage.do_coverage", C.do_coverage), ("coverage.interval_coverages", C.interval_coverages),
-              ("coverage.interval_coverages_count", C.interval_coverages_count), ("coverage.region_depth_count", C.region_depth_count),
-              ("coverage.interval_coverages_pileup", C.interval_coverages_pileup), ("coverage.bedcov", C.bedcov),
-              ("coverage.detect_bedcov_columns", C.detect_bedcov_columns), ("parallel.to_chunks", P.to_chunks)]
-    C.to_chunks = make_to_chunks(C.to_chunks)
-    rt._ATTACHED.append((C, "to_chunks", C.to_chunks.__vmon_orig__))
+    traced = [("coverage.do_coverage", rt.opt(C, "do_coverage")), ("coverage.interval_coverages", rt.opt(C, "interval_coverages")),
+              ("coverage.interval_coverages_count", rt.opt(C, "interval_coverages_count")), ("coverage.region_depth_count", rt.opt(C, "region_depth_count")),
+              ("coverage.interval_coverages_pileup", rt.opt(C, "interval_coverages_pileup")), ("coverage.bedcov", rt.opt(C, "bedcov")),
+              ("coverage.detect_bedcov_columns", rt.opt(C, "detect_bedcov_columns")), ("parallel.to_chunks", rt.opt(P, "to_chunks"))]
+    if hasattr(C, "to_chunks"):
+        C.to_chunks = make_to_chunks(C.to_chunks)
+        rt._ATTACHED.append((C, "to_chunks", C.to_chunks.__vmon_orig__))
+    else:
+        run.extra["injection-unavailable:coverage.to_chunks"] += 1
     pid = os.getpid()
     for attr, kind in (("_bedcov", "bedcov"), ("_rdc", "rdc")):
+        if not hasattr(C, attr):
+            run.extra[f"injection-unavailable:coverage.{attr}"] += 1
+            continue
         w = make_worker(getattr(C, attr), pid, kind)
         rt._ATTACHED.append((C, attr, getattr(C, attr)))
         setattr(C, attr, w)
